@@ -2,8 +2,10 @@
 counterexamples, writes evidence, prints VIOLATION / KNOWN-FINDING lines, sets the exit code.
 
 exit 0: every obligation proved (and bounded stand-ins found nothing)
-exit 1: violation (refuted obligation, replayed where possible)
-exit 2: undecided (unknown / unsupported construct), no violation
+exit 1: violation: a refuted obligation (replayed where possible), or an obligation that is recorded in
+        baseline/<id>.json as proved on the pinned tree and is not discharged on this tree (reported with
+        no-failing-input-found and the solver's reason)
+exit 2: undecided (unknown / unsupported construct) on an obligation with no proved baseline, no violation
 exit 3: checker crash
 """
 import fnmatch
@@ -30,7 +32,7 @@ def build(prop=None):
     builtins_model.install(reg)
     mods = sorted(glob.glob(os.path.join(VERIF, 'contracts', '*.py')))
     names = [os.path.basename(m)[:-3] for m in mods if not os.path.basename(m).startswith('_')]
-    first = [n for n in ('common', 'util', 'mm') if n in names]
+    first = [n for n in ('common', 'util', 'mm', 'tm') if n in names]
     order = first + [n for n in names if n not in first]
     for n in order:
         m = importlib.import_module('contracts.' + n)
@@ -106,6 +108,13 @@ def load_known(prop):
     return [k for k in data.get('known', []) if k.get('property') == prop]
 
 
+def load_baseline(prop):
+    p = os.path.join(VERIF, 'baseline', prop + '.json')
+    if not os.path.exists(p):
+        return set()
+    return set(json.load(open(p)).get('proved', []))
+
+
 def run_known_witness(k):
     """replay the recorded witness of a known finding natively; returns True if it still fails"""
     import subprocess
@@ -119,7 +128,7 @@ def run_known_witness(k):
     return p.returncode == 1
 
 
-def check_property(prop, tier='quick', seed=0, jobs=None):
+def check_property(prop, tier='quick', seed=0, jobs=None, update_baseline=False):
     t0 = time.time()
     os.environ['VERIF_TIER'] = tier
     sys.path.insert(0, VERIF)
@@ -142,6 +151,7 @@ def check_property(prop, tier='quick', seed=0, jobs=None):
         bounded = extra.bounded(tier, seed)
 
     known = load_known(prop)
+    baseline = load_baseline(prop)
     # aggregate by clause
     clauses = {}
     for r in results:
@@ -178,6 +188,11 @@ def check_property(prop, tier='quick', seed=0, jobs=None):
         elif any(o['verdict'] == 'refuted' for o in bad):
             o = next(o for o in bad if o['verdict'] == 'refuted')
             violations.append((name, o.get('replay'), False, o))
+        elif name in baseline:
+            # proved on the pinned tree, not discharged on this one: reported as a violation without an input
+            o = bad[0]
+            o['note'] = 'proved on the pinned tree, not discharged on this tree; solver: %s' % (o.get('note') or 'unknown')
+            violations.append((name, o.get('replay'), False, o))
         else:
             undecided.append('%s: solver unknown (%s)' % (name, bad[0]['note'][:200]))
     for b in bounded:
@@ -209,6 +224,13 @@ def check_property(prop, tier='quick', seed=0, jobs=None):
         if o.get('inputs'):
             print('  failing input: %s' % o['inputs'][0])
         print('VIOLATION property=%s replay=%s%s' % (prop, rp_, '' if reproduced else ' no-failing-input-found'))
+    if update_baseline:
+        if violations or crashes or undecided:
+            print('baseline not updated: the run is not clean')
+        else:
+            os.makedirs(os.path.join(VERIF, 'baseline'), exist_ok=True)
+            with open(os.path.join(VERIF, 'baseline', prop + '.json'), 'w') as f:
+                json.dump({'property': prop, 'proved': sorted(n for n, c in clauses.items() if c['verdict'] == 'proved')}, f, indent=1)
     if violations:
         return 1
     if crashes:
@@ -284,6 +306,8 @@ def main(argv):
     ap.add_argument('--tier', default=os.environ.get('VERIF_TIER', 'quick'))
     ap.add_argument('--replay')
     ap.add_argument('--jobs', type=int)
+    ap.add_argument('--update-baseline', action='store_true',
+                    help='record the clause names proved on this (clean, pinned) tree; never used by a registered command')
     a = ap.parse_args(argv)
     if a.replay:
         from . import replay as rp
@@ -293,4 +317,4 @@ def main(argv):
             print('VIOLATION property=%s replay=%s' % (a.prop, a.replay))
         return code
     seed = int(os.environ.get('VERIF_SEED', '0') or 0)
-    return check_property(a.prop, a.tier, seed, a.jobs)
+    return check_property(a.prop, a.tier, seed, a.jobs, a.update_baseline)
